@@ -14,11 +14,18 @@ What is PROVED (Props/C14.lean, about Model/NaiveDecode.lean, generic in the cod
 
 What is EXPLORED (not proved): that PlanarMWPMDecoder / ToricMWPMDecoder correct every error whose X- and
 Z-components each have weight <= t.  All such errors are enumerated for small sizes (flag `exhaustive` per code
-size in coverage.explored), all single-type placements plus seeded mixed samples for larger sizes.  The verdict
+size in coverage.explored), all single-type placements plus seeded mixed samples for larger sizes; for every size
+with d >= 5 up to 7x7 (both orientations of the non-square ones; thorough: up to 9x9) the STRUCTURED weight-t errors,
+i.e. the extremal inputs of the theorem where the cost of the right matching equals the chain weight t and the wrong
+one costs d - t: straight chains along every row / column at every offset (contiguous, gapped, split in pieces at
+every separation, centred between the boundaries, wrapping round the torus), bent chains (L, S, U), as X / Z / Y and
+X-on-row + Z-on-column.  Decoder objects are also driven through HISTORIES (one instance serving several codes of
+different family / size, with equal and different syndrome lengths), every answer checked.  The verdict
 "recovery xor error commutes with all stabilizers and logicals" is computed in Python with an independent
 symplectic product and confirmed by the Lean driver (`corrected`), and "is a product of stabilizers" by a Lean
 certificate check (`inSpanCert`) of a certificate found by Gaussian elimination.
 """
+import collections
 import itertools
 import json
 import math
@@ -36,8 +43,15 @@ RULE = ('(a) NaiveDecoder.decode compared exactly with the Lean model on every s
         'every Pauli error with |X-supp|<=t and |Z-supp|<=t when that space is within the tier budget, otherwise all '
         'single-type (X, Z, Y) placements of weight<=t plus seeded mixed samples; real decode of the real syndrome under '
         'a time limit; verdict recovery^error commutes with all stabilizers and logicals computed in Python and '
-        'confirmed in batches by the Lean driver, plus a Lean-checked span certificate. non-trivial = batch contains a '
-        'non-identity error / syndrome is non-zero; distinct = distinct protocol lines')
+        'confirmed in batches by the Lean driver, plus a Lean-checked span certificate; (b\') for every size with d>=5 up '
+        'to 7x7 incl. both orientations of 5x6, 5x7, 6x7 (thorough: also 8x8, 7x9, 9x7, 9x9): the STRUCTURED weight-t '
+        'errors - every t-subset of every lattice row and column (contiguous chains at every offset, centred, at a '
+        'boundary, wrapping round the torus; gapped; split in pieces at every separation), every chain with one turn '
+        '(L) and with two turns (S, U), each as X, Z and Y (quick: Y on a seeded quarter), plus X-on-row with '
+        'Z-on-column combinations; (c) decoder-object histories: one NaiveDecoder / PlanarMWPMDecoder / '
+        'ToricMWPMDecoder instance reused across codes of different family and size (equal and different syndrome '
+        'lengths), property evaluated on every answer, compared with a fresh instance and (naive) the Lean model. '
+        'non-trivial = batch contains a non-identity error / syndrome is non-zero; distinct = distinct protocol lines')
 
 KNOWN_KEY = 'NaiveDecoder.basic-code.mixed-support-weight>t'
 BATCH = 64
@@ -210,6 +224,190 @@ def random_mixed(rng, n, t, count):
         yield err_from_supports(n, rng.sample(range(n), wx), rng.sample(range(n), wz))
 
 
+# ------------------------------------------------------------------------------------------ structured errors
+#
+# The extremal inputs of the theorem are CHAINS: an error chain of weight exactly t whose matching cost equals its
+# weight competes with the complementary route (to the boundaries / around the torus) of cost d - t.  Random
+# placements of t qubits on a 7x7 lattice almost never form one, so they are generated from the lattice geometry.
+#
+# Geometry (independent of qecsim's Pauli classes): doubled coordinates.  Planar R x C: (2R-1) x (2C-1) grid, qubits
+# where row+col is even, stabilizer nodes where it is odd, open boundaries.  Toric R x C: (2R) x (2C) periodic grid,
+# vertices at (even, even), horizontal edge (0,r,c) at (2r, 2c+1), vertical edge (1,r,c) at (2r+1, 2c), faces at
+# (odd, odd).  In both, a chain that crosses qubit s in direction u (a unit vector) continues through s + 2u, and
+# turns into the perpendicular direction v through s + u + v.
+
+class Geo:
+    def __init__(self, recipe):
+        self.fam, self.R, self.C = recipe[0], int(recipe[1]), int(recipe[2])
+        if self.fam == 'planar':
+            self.H, self.W, self.parity, self.wrap = 2 * self.R - 1, 2 * self.C - 1, 0, False
+        else:
+            self.H, self.W, self.parity, self.wrap = 2 * self.R, 2 * self.C, 1, True
+        self.sites = [(r, c) for r in range(self.H) for c in range(self.W) if (r + c) % 2 == self.parity]
+
+    def norm(self, p):
+        """canonical coordinates of a qubit position, None when it is not a qubit of the lattice"""
+        r, c = p
+        if self.wrap:
+            r, c = r % self.H, c % self.W
+        elif not (0 <= r < self.H and 0 <= c < self.W):
+            return None
+        return (r, c) if (r + c) % 2 == self.parity else None
+
+    def qubit(self, p):
+        r, c = p
+        if self.fam == 'planar':
+            return (r // 2) * (self.C - c % 2) + c // 2 + (r % 2) * self.R * self.C
+        return (r % 2) * self.R * self.C + (r // 2) * self.C + c // 2
+
+    def lines(self):
+        """every lattice row and every lattice column of qubits, as ordered lists of positions: (axis, [positions])"""
+        for r in range(self.H):
+            ps = [(r, c) for c in range(self.W) if (r + c) % 2 == self.parity]
+            if ps:
+                yield 'row', ps
+        for c in range(self.W):
+            ps = [(r, c) for r in range(self.H) if (r + c) % 2 == self.parity]
+            if ps:
+                yield 'col', ps
+
+    def walk(self, start, moves):
+        """positions crossed by a chain: start, then for every move ('s', u) straight on / ('t', u, v) turn from
+        direction u into v / ('g', u) straight on without an error (a gap).  None when it leaves the lattice or
+        revisits a qubit."""
+        p = self.norm(start)
+        if p is None:
+            return None
+        out = [p]
+        for mv in moves:
+            if mv[0] == 't':
+                nxt = (p[0] + mv[1][0] + mv[2][0], p[1] + mv[1][1] + mv[2][1])
+            else:
+                nxt = (p[0] + 2 * mv[1][0], p[1] + 2 * mv[1][1])
+            p = self.norm(nxt)
+            if p is None:
+                return None
+            if mv[0] != 'g':
+                if p in out:
+                    return None
+                out.append(p)
+        return out
+
+
+DIRS = ((0, 1), (1, 0), (0, -1), (-1, 0))
+
+
+def compositions(total, parts):
+    if parts == 1:
+        yield (total,)
+        return
+    for first in range(1, total - parts + 2):
+        for rest in compositions(total - first, parts - 1):
+            yield (first,) + rest
+
+
+def structured_supports(geo, t, max_line_subsets=4000):
+    """supports of weight exactly t (tuples of qubit indices) with a class label, each support once:
+       line   every t-subset of every lattice row and column: contiguous chains at every offset (centred between
+              opposite boundaries, touching a boundary, wrapping round the torus), chains with gaps, chains split
+              into two (or more) pieces at every separation;
+       bent   chains with one turn (L) at every position / orientation / arm length, and with two turns (S and U
+              shapes) when t >= 3."""
+    seen = set()
+
+    def emit(label, ps):
+        qs = tuple(sorted(geo.qubit(p) for p in ps))
+        if len(set(qs)) != t or qs in seen:
+            return None
+        seen.add(qs)
+        return label, qs
+
+    if t < 1:
+        return
+    for axis, ps in geo.lines():
+        if len(ps) < t:
+            continue
+        if math.comb(len(ps), t) <= max_line_subsets:
+            combos = itertools.combinations(range(len(ps)), t)
+        else:  # very long lines: contiguous and two-piece chains only
+            L = len(ps)
+            combos = set()
+            for a in range(1, t + 1):
+                for o in range(L):
+                    for g in range(0 if a == t else 1, L):
+                        idx = [o + k for k in range(a)] + [o + a + g + k for k in range(t - a)]
+                        idx = [i % L for i in idx] if geo.wrap else idx
+                        if max(idx) < L and len(set(idx)) == t:
+                            combos.add(tuple(sorted(idx)))
+            combos = sorted(combos)
+        for idx in combos:
+            x = emit(axis, [ps[i] for i in idx])
+            if x:
+                yield x
+    if t < 2:
+        return
+    for s0 in geo.sites:
+        for u in DIRS:
+            for v in DIRS:
+                if u[0] * v[0] + u[1] * v[1] != 0:
+                    continue
+                shapes = []
+                for a, b in compositions(t, 2):     # L: a qubits along u, b along v
+                    shapes.append([('s', u)] * (a - 1) + [('t', u, v)] + [('s', v)] * (b - 1))
+                if t >= 3:
+                    for a, b, c in compositions(t, 3):
+                        for w in (u, (-u[0], -u[1])):  # S (onwards along u) and U (back along -u)
+                            shapes.append([('s', u)] * (a - 1) + [('t', u, v)] + [('s', v)] * (b - 1) +
+                                          [('t', v, w)] + [('s', w)] * (c - 1))
+                for moves in shapes:
+                    ps = geo.walk(s0, moves)
+                    if ps is not None and len(ps) == t:
+                        x = emit('bent', ps)
+                        if x:
+                            yield x
+
+
+def structured_errors(rng, geo, n, t, y_fraction=1.0, paired=False):
+    """errors built from the structured supports.  Yields (label, error).
+    paired=False: X-only and Z-only on every support, Y on every support (or a seeded fraction), and the mixed
+      combination X on a row support with Z on a column support (and vice versa), paired by a seeded shuffle so that
+      every row support and every column support occurs in a mixed error.
+    paired=True (quick tier, half the decodes): every support S_i once as the X-component and once as the
+      Z-component of an error  X on S_i * Z on S_j,  j a seeded rotation that pairs row supports with column supports
+      wherever possible (both components have weight exactly t: the error is in the domain of C14 and, the X and Z
+      sectors being matched separately, fails iff one of its components does; a failure is shrunk to the failing
+      component by `sweep`), plus Y on a seeded fraction."""
+    sup = list(structured_supports(geo, t))
+    if paired:
+        groups = {'row': [], 'col': [], 'bent': []}
+        for label, qs in sup:
+            groups[label].append((label, qs))
+        for g in groups.values():
+            rng.shuffle(g)
+        order = groups['row'] + groups['col'] + groups['bent']
+        k = len(groups['row']) or len(order) // 2
+        for (la, a), (lb, b) in zip(order, order[k:] + order[:k]):
+            yield 'paired/X{}+Z{}'.format(la, lb), err_from_supports(n, a, b)
+        for label, qs in order:
+            if rng.random() < y_fraction:
+                yield label + '/Y', err_from_supports(n, qs, qs)
+        return
+    for label, qs in sup:
+        yield label + '/X', err_from_supports(n, qs, ())
+        yield label + '/Z', err_from_supports(n, (), qs)
+        if y_fraction >= 1.0 or rng.random() < y_fraction:
+            yield label + '/Y', err_from_supports(n, qs, qs)
+    rows = [qs for label, qs in sup if label == 'row']
+    cols = [qs for label, qs in sup if label == 'col']
+    if rows and cols:
+        rng.shuffle(rows); rng.shuffle(cols)
+        for i in range(max(len(rows), len(cols))):
+            a, b = rows[i % len(rows)], cols[i % len(cols)]
+            yield 'mixed/Xrow+Zcol', err_from_supports(n, a, b)
+            a, b = rows[(i + 1) % len(rows)], cols[i % len(cols)]
+            yield 'mixed/Zrow+Xcol', err_from_supports(n, b, a)
+
+
 # ------------------------------------------------------------------------------------------ the sweep (part b)
 
 def decode_real(decoder, code, syndrome, limit):
@@ -245,34 +443,72 @@ def check_one(code, decoder, S, L, e, limit=30):
     return ok, r.astype(int), ''
 
 
+class Batcher:
+    """collects (error, recovery, verdict, certificate) of one code and queues the Lean `corrected` / `inspan` cases"""
+
+    def __init__(self, ctx, code_recipe, dec_recipe, S, L, kind_suffix=''):
+        self.ctx, self.code_recipe, self.dec_recipe = ctx, code_recipe, dec_recipe
+        self.S, self.sS, self.sL = S, mat(S), mat(L)
+        self.span = Span(S)
+        self.suffix = kind_suffix
+        self.pend = []
+
+    def add(self, e, r, ok):
+        """returns the final verdict (ok and a span certificate exists)"""
+        x = e ^ r
+        c = self.span.cert(x) if ok else None
+        if ok and c is None:
+            # commutes with S and L but is not a product of stabilizers: the code is not a valid [[n,k]] code (C07)
+            self.ctx.monitor_fail('recovery^error commutes with stabilizers and logicals but is not in their span',
+                                  {'kind': 'correct', 'code': self.code_recipe, 'decoder': self.dec_recipe,
+                                   'error': pauli_str(e)}, key='C14.span.' + self.code_recipe[0])
+        self.pend.append((e, r, ok and c is not None, c if c is not None else [0] * len(self.S)))
+        if len(self.pend) >= BATCH:
+            self.flush()
+
+    def flush(self):
+        pend, ctx = self.pend, self.ctx
+        if not pend:
+            return
+        nontriv = any(p[0].any() for p in pend)
+        ctx.case('c14 corrected {} {} {}'.format(self.sS, self.sL,
+                                                 ','.join(bits(e) + ':' + bits(r) for e, r, _, _ in pend)),
+                 ''.join('1' if ok else '0' for _, _, ok, _ in pend), nontrivial=nontriv,
+                 meta={'kind': 'corrected' + self.suffix, 'code': self.code_recipe, 'decoder': self.dec_recipe})
+        ctx.case('c14 inspan {} {}'.format(self.sS, ','.join(bits(e ^ r) + ':' + bits(c) for e, r, _, c in pend)),
+                 ''.join('1' if ok else '0' for _, _, ok, _ in pend), nontrivial=nontriv,
+                 meta={'kind': 'inspan' + self.suffix, 'code': self.code_recipe, 'decoder': self.dec_recipe})
+        self.pend = []
+
+
 def sweep(ctx, code_recipe, dec_recipe, errors, exhaustive, part, stats):
+    """errors: iterable of error vectors or of (class label, error vector)"""
     code = make_code(code_recipe); decoder = make_decoder(dec_recipe)
     n, k, d = code.n_k_d
     t = (d - 1) // 2
     S = np.array(code.stabilizers, dtype=int); L = logicals_of(code)
-    span = Span(S)
-    sS, sL = mat(S), mat(L)
+    batch = Batcher(ctx, code_recipe, dec_recipe, S, L)
     tag = tag_of(code_recipe)
-    pend = []  # (e, r, ok, cert)
     n_err = n_fail = n_known = 0
+    classes = collections.Counter()
 
-    def flush():
-        if not pend:
-            return
-        nontriv = any(p[0].any() for p in pend)
-        ctx.case('c14 corrected {} {} {}'.format(sS, sL, ','.join(bits(e) + ':' + bits(r) for e, r, _, _ in pend)),
-                 ''.join('1' if ok else '0' for _, _, ok, _ in pend), nontrivial=nontriv,
-                 meta={'kind': 'corrected', 'code': code_recipe, 'decoder': dec_recipe})
-        ctx.case('c14 inspan {} {}'.format(sS, ','.join(bits(e ^ r) + ':' + bits(c) for e, r, _, c in pend)),
-                 ''.join('1' if ok else '0' for _, _, ok, _ in pend), nontrivial=nontriv,
-                 meta={'kind': 'inspan', 'code': code_recipe, 'decoder': dec_recipe})
-        pend.clear()
-
-    for e in errors:
+    for item in errors:
+        label, e = item if isinstance(item, tuple) else ('placement', item)
         n_err += 1
+        classes[label] += 1
         ok, r, note = check_one(code, decoder, S, L, e)
         xw, zw = int(e[:n].sum()), int(e[n:].sum())
         ctx.count(part + '_xw_zw_of_t', '{},{} t={}'.format(xw, zw, t))
+        if xw > t or zw > t:
+            raise core.Infra('generator left the domain of C14: {} on {} (t={})'.format(pauli_str(e), tag, t))
+        if not ok and e[:n].any() and e[n:].any():
+            # shrink a failing mixed error to a failing single-type component (fresh decoder object)
+            for part_e in (np.concatenate((e[:n], 0 * e[n:])), np.concatenate((0 * e[:n], e[n:]))):
+                ok2, r2, note2 = check_one(code, make_decoder(dec_recipe), S, L, part_e)
+                if not ok2:
+                    label, e, r, note = label + ' (shrunk to one component)', part_e, r2, note2
+                    xw, zw = int(e[:n].sum()), int(e[n:].sum())
+                    break
         if not ok:
             key = fail_key(dec_recipe, code_recipe, e, t)
             n_fail += 1
@@ -281,25 +517,18 @@ def sweep(ctx, code_recipe, dec_recipe, errors, exhaustive, part, stats):
                 'C14 fails on the real code: {} on {} does not correct {} (|X|={} |Z|={} weight={} t={}){}'.format(
                     dec_recipe[0], tag, pauli_str(e), xw, zw, wt(e), t, ': ' + note if note else ''),
                 {'kind': 'correct', 'code': code_recipe, 'decoder': dec_recipe, 'error': pauli_str(e), 't': t,
-                 'recovery': None if r is None else pauli_str(r)}, key=key)
+                 'class': label, 'recovery': None if r is None else pauli_str(r)}, key=key)
         if r is not None:
-            x = e ^ r
-            c = span.cert(x) if ok else None
-            if ok and c is None:
-                # commutes with S and L but is not a product of stabilizers: the code is not a valid [[n,k]] code (C07)
-                ctx.monitor_fail('recovery^error commutes with stabilizers and logicals but is not in their span',
-                                 {'kind': 'correct', 'code': code_recipe, 'decoder': dec_recipe,
-                                  'error': pauli_str(e)}, key='C14.span.' + code_recipe[0])
-            pend.append((e, r, ok and c is not None, c if c is not None else [0] * len(S)))
-            if len(pend) >= BATCH:
-                flush()
-    flush()
+            batch.add(e, r, ok)
+    batch.flush()
     ctx.count(part + '_code', tag)
+    for label, c in classes.items():
+        ctx.hist[part + '_error_class'][label] += c
     st = stats.setdefault(part, {'evaluations': 0, 'exhaustive_codes': [], 'sampled_codes': [], 'failures': 0,
                                  'known_failures': 0, 'per_code': {}})
     st['evaluations'] += n_err; st['failures'] += n_fail; st['known_failures'] += n_known
     st['per_code'][tag] = {'n': int(n), 'd': int(d), 't': int(t), 'errors': n_err, 'exhaustive': bool(exhaustive),
-                           'failures': n_fail}
+                           'failures': n_fail, 'classes': dict(classes)}
     (st['exhaustive_codes'] if exhaustive else st['sampled_codes']).append(tag)
 
 
@@ -311,20 +540,30 @@ def random_single_type(rng, n, t, count):
         yield err_from_supports(n, qs if kind in 'XY' else (), qs if kind in 'ZY' else ())
 
 
-def lattice_errors(ctx, n, t, budget, mixed):
-    """(iterator, exhaustive?) for one lattice code"""
+def lattice_errors(ctx, recipe, n, t, budget, mixed, structured_only=False):
+    """(iterator of errors / (class, error), exhaustive?) for one lattice code"""
     space = n_subsets_upto(n, t) ** 2
     if space <= budget:
         return component_errors(n, t), True
+    geo = Geo(recipe)
     n_single = 3 * n_subsets_upto(n, t)
     n_tot = sum(math.comb(n, w) * 3 ** w for w in range(t + 1))
-    if not ctx.quick() and n_tot <= budget:
+    if t < 2:
+        structured = iter(())
+    elif structured_only:
+        structured = structured_errors(ctx.rng, geo, n, t, y_fraction=0.25, paired=True)
+    else:
+        structured = structured_errors(ctx.rng, geo, n, t, y_fraction=ctx.scale(0.25, 1.0))
+    if structured_only:
+        base = iter([err_from_supports(n, (), ())])   # the weight-t errors are the structured ones (+ mixed samples)
+    elif not ctx.quick() and n_tot <= budget:
         base = total_weight_errors(n, t)          # every Pauli of total weight <= t
     elif n_single <= budget:
         base = single_type_errors(n, t)           # every X-only / Z-only / Y-only placement of weight <= t
+        structured = (x for x in structured if x[0].startswith('mixed/'))   # the single-type ones are in `base`
     else:
         base = itertools.chain(single_type_errors(n, t - 1), random_single_type(ctx.rng, n, t, budget // 2))
-    return itertools.chain(base, random_mixed(ctx.rng, n, t, mixed)), False
+    return itertools.chain(base, structured, random_mixed(ctx.rng, n, t, mixed)), False
 
 
 # ------------------------------------------------------------------------------------------ the naive tie (part a)
@@ -351,9 +590,10 @@ def syn_key(s):
     return int(sum(int(b) << i for i, b in enumerate(s)))
 
 
-def naive_outcome(code, mq_args, syndrome, limit=120):
+def naive_outcome(code, mq_args, syndrome, limit=120, dec=None):
     from qecsim.models.generic import NaiveDecoder
-    dec = NaiveDecoder(*mq_args)
+    if dec is None:
+        dec = NaiveDecoder(*mq_args)
     try:
         with core.TimeLimit(limit):
             r = dec.decode(code, np.array(syndrome, dtype=int))
@@ -475,6 +715,249 @@ def mq_value(mq):
     return 0 if (v is None or v is False) else int(v)
 
 
+# ------------------------------------------------------------------------------------------ decoder histories (c)
+#
+# The property quantifies over decoders and codes, not over freshly built decoder objects: one decoder instance that
+# serves several codes in turn (what a script looping over codes does) must still correct every in-domain error.
+# A history is a list of steps [code recipe, 'e', Pauli string] (decode the syndrome of this error; the clause
+# "recovery xor error is a stabilizer product", for the naive decoder also the min-weight clause) or
+# [code recipe, 's', syndrome bits] (naive decoder only: the min-weight / None-iff-unsatisfiable clause).
+
+_INFO = {}
+
+
+def norm_recipe(recipe):
+    return tuple(tuple(x) if isinstance(x, (list, tuple)) else x for x in recipe)
+
+
+def code_info(recipe):
+    recipe = norm_recipe(recipe)
+    if recipe not in _INFO:
+        code = make_code(recipe)
+        n = n_of(code)
+        d = code.n_k_d[2]
+        S = np.array(code.stabilizers, dtype=int).reshape(-1, 2 * n)
+        try:
+            L = logicals_of(code)
+        except ValueError:      # BasicCode without logical operators
+            L = np.zeros((0, 2 * n), dtype=int)
+        _INFO[recipe] = {'recipe': recipe, 'code': code, 'n': n, 'S': S, 'L': L,
+                         't': None if d is None else (d - 1) // 2, 'table': None}
+    return _INFO[recipe]
+
+
+def table_of(info):
+    if info['table'] is None:
+        info['table'] = minweight_table(info['S'], info['n'])
+    return info['table']
+
+
+class _Sink:
+    def __init__(self):
+        self.msg = None
+
+    def monitor_fail(self, what, inp, key=None):
+        self.msg = what
+
+
+def eval_step(decoder, dec_recipe, step):
+    """the property for one history step, answered by THIS decoder object.
+    -> dict ok (all clauses), corrected (None for syndrome steps), out (answer as a string), r, e, s, note"""
+    info = code_info(step[0])
+    code, S, L, n = info['code'], info['S'], info['L'], info['n']
+    kind, payload = step[1], step[2]
+    res = {'ok': True, 'corrected': None, 'out': None, 'r': None, 'e': None, 's': None, 'note': ''}
+    if kind == 'e':
+        e = from_pauli(payload)
+        s = [int(b) for b in sp(e, S)[0]] if len(S) else []
+        res['e'] = e
+    else:
+        s = [] if payload == '_' else [int(c) for c in payload]
+    res['s'] = s
+    if dec_recipe[0] == 'NaiveDecoder':
+        out, r = naive_outcome(code, (), s, dec=decoder)
+        res['out'], res['r'] = out, r
+        if n <= 8:
+            sink = _Sink()
+            bad = minweight_monitor(sink, info['recipe'], code, table_of(info), s, out, r)
+            if bad:
+                res['ok'] = False; res['note'] = 'min-weight clause: ' + bad
+        if kind == 'e':
+            good = r is not None and len(r) == 2 * n and not sp(r ^ e, S).any() and not sp(r ^ e, L).any()
+            res['corrected'] = bool(good)
+            if not good:
+                res['ok'] = False
+                res['note'] = ('recovery^error is not a stabilizer product' if r is not None else 'answer ' + out) + \
+                    ('; ' + res['note'] if res['note'] else '')
+        return res
+    ok, r, note = check_one(code, decoder, S, L, res['e'])
+    res.update(ok=bool(ok), corrected=bool(ok), r=r, note=note or ('' if ok else 'recovery^error is not a stabilizer product'),
+               out='raised/None' if r is None else 'ok ' + bits(r))
+    return res
+
+
+def replay_history(dec_recipe, steps):
+    """one decoder instance answers all steps in order -> list of eval_step results"""
+    dec = make_decoder(tuple(dec_recipe))
+    return [eval_step(dec, tuple(dec_recipe), st) for st in steps]
+
+
+def minimize_history(dec_recipe, steps, i):
+    """a short history that still ends in the failure of step i: the step alone, one earlier step + it, or the prefix"""
+    if not replay_history(dec_recipe, [steps[i]])[-1]['ok']:
+        return [steps[i]]
+    for j in range(i):
+        if not replay_history(dec_recipe, [steps[j], steps[i]])[-1]['ok']:
+            return [steps[j], steps[i]]
+    return list(steps[:i + 1])
+
+
+def describe_history(dec_recipe, steps, res):
+    last = steps[-1]
+    return ('C14 fails on the real code after a decoder history: one {} instance, after answering {} earlier step(s) '
+            '({}), does not handle {} {} on {}: {} (answer {})'.format(
+                dec_recipe[0], len(steps) - 1,
+                ', '.join('{}:{}'.format(tag_of(norm_recipe(st[0])), st[2]) for st in steps[:-1][:3]) or 'none',
+                'error' if last[1] == 'e' else 'syndrome', last[2], tag_of(norm_recipe(last[0])), res['note'],
+                (res['out'] or '')[:120]))
+
+
+def history_failure(dec_recipe, steps, upto=None):
+    """replays the history; a dict (with a minimised history) when some step fails the property, else None"""
+    steps = [list(st) for st in steps]
+    if upto is not None:
+        steps = steps[:upto + 1]
+    results = replay_history(dec_recipe, steps)
+    for i, res in enumerate(results):
+        if not res['ok']:
+            mini = minimize_history(dec_recipe, steps, i)
+            r2 = replay_history(dec_recipe, mini)[-1]
+            return {'what': describe_history(dec_recipe, mini, r2), 'kind': 'history', 'decoder': list(dec_recipe),
+                    'steps': mini, 'failing_step': i}
+    return None
+
+
+def recipe_json(recipe):
+    return [list(x) if isinstance(x, (list, tuple)) else x for x in recipe]
+
+
+def naive_history_steps(ctx):
+    """all codes small enough for brute force, visited in one order and then in the reverse order, so that every
+    code is decoded after every other one; several pairs have equally long syndromes (planar 2x2 / five-qubit: 4,
+    planar 2x3 / 3x2: 7, the two-generator basic codes), others differ"""
+    rng = ctx.rng
+    recipes = [norm_recipe(x) for x in (
+        ('planar', 2, 2), ('five',), CUSTOM_BASIC[2], CUSTOM_BASIC[1], CUSTOM_BASIC[3], CUSTOM_BASIC[4],
+        ('steane',), ('planar', 2, 3), ('planar', 3, 2))]
+    per_code = {}
+    for recipe in recipes:
+        info = code_info(recipe)
+        n, S, t = info['n'], info['S'], info['t']
+        m = len(S)
+        table = table_of(info)
+        allsyn = [list(x) for x in itertools.product((0, 1), repeat=m)]
+        sat = [x for x in allsyn if syn_key(x) in table]
+        unsat = [x for x in allsyn if syn_key(x) not in table]
+        if n > 7:       # naive decode costs up to 4^n candidates: bounded number of heavy syndromes
+            light = [x for x in sat if table[syn_key(x)] <= 1]
+            heavy = [x for x in sat if table[syn_key(x)] > 1]
+            sat = light + rng.sample(heavy, min(len(heavy), ctx.scale(5, 200)))
+            unsat = []
+        elif 4 ** n > 2000:
+            unsat = unsat[:ctx.scale(2, 8)]
+        st = [[recipe_json(recipe), 's', bits(x)] for x in sat + unsat]
+        if t is not None:
+            st += [[recipe_json(recipe), 'e', pauli_str(e)] for e in total_weight_errors(n, t)]
+        per_code[recipe] = st
+    steps = []
+    for order in (recipes, recipes[::-1]):
+        for recipe in order:
+            st = list(per_code[recipe])
+            rng.shuffle(st)
+            # a syndrome of the previous code (other length) is not a syndrome of this one: the answer must be None
+            if steps and len(code_info(steps[-1][0])['S']) != len(code_info(recipe)['S']) and steps[-1][1] == 's':
+                st.insert(len(st) // 2, [recipe_json(recipe), 's', steps[-1][2]])
+            steps += st
+    return steps
+
+
+def mwpm_history_steps(ctx, fam):
+    """one MWPM decoder instance serving lattices of different sizes in a seeded interleaved order (R x C and C x R
+    have equally long syndromes), each step a structured weight-t chain or a mixed sample"""
+    rng = ctx.rng
+    sizes = [(3, 3), (3, 5), (5, 3), (4, 4), (5, 5), (4, 6), (6, 4), (5, 6), (6, 5), (5, 7), (7, 5), (7, 7), (2, 2)]
+    pools = {}
+    for (R, C) in sizes:
+        recipe = (fam, R, C)
+        info = code_info(recipe)
+        pools[recipe] = [e for _, e in structured_errors(rng, Geo(recipe), info['n'], info['t'], 1.0)] \
+            if info['t'] >= 1 else []
+    steps = []
+    for rnd in range(ctx.scale(40, 200)):
+        order = list(pools)
+        rng.shuffle(order)
+        for recipe in order:
+            info = code_info(recipe)
+            pool = pools[recipe]
+            if pool and rng.random() < 0.7:
+                e = pool[rng.randrange(len(pool))]
+            else:
+                e = next(random_mixed(rng, info['n'], info['t'], 1))
+            steps.append([recipe_json(recipe), 'e', pauli_str(e)])
+    return steps
+
+
+def run_history(ctx, dec_recipe, steps, out_stats):
+    shared = make_decoder(dec_recipe)
+    naive = dec_recipe[0] == 'NaiveDecoder'
+    batchers = {}
+    fresh_cache = {}
+    differ = failures = 0
+    codes = collections.Counter()
+    for i, st in enumerate(steps):
+        info = code_info(st[0])
+        res = eval_step(shared, dec_recipe, st)
+        fkey = (info['recipe'], st[1], st[2])
+        if fkey not in fresh_cache:     # a fresh instance's answer to this step (the same step may recur in a history)
+            fresh_cache[fkey] = eval_step(make_decoder(dec_recipe), dec_recipe, st)
+        fresh = fresh_cache[fkey]
+        codes[tag_of(info['recipe'])] += 1
+        same = res['out'] == fresh['out']
+        differ += (not same)
+        ctx.count('history_' + dec_recipe[0], '{} step={} same_as_fresh={}'.format(tag_of(info['recipe']), st[1], same))
+        if naive:
+            # the shared instance's answer against the Lean model of the naive decoder
+            ctx.case('c14 naive 10 {} {} {}'.format(mat(info['S']), info['n'], bits(res['s'])), res['out'],
+                     nontrivial=any(res['s']),
+                     meta={'kind': 'history', 'decoder': list(dec_recipe), 'steps': steps, 'index': i})
+        if st[1] == 'e' and res['r'] is not None and len(res['r']) == 2 * info['n']:
+            b = batchers.get(info['recipe'])
+            if b is None:
+                b = batchers[info['recipe']] = Batcher(ctx, info['recipe'], dec_recipe, info['S'], info['L'], '-history')
+            b.add(res['e'], np.asarray(res['r'], dtype=int), bool(res['corrected']))
+        if not res['ok']:
+            failures += 1
+            mini = minimize_history(dec_recipe, steps, i)
+            r2 = replay_history(dec_recipe, mini)[-1]
+            ctx.monitor_fail(describe_history(dec_recipe, mini, r2),
+                             {'kind': 'history', 'code': recipe_json(info['recipe']), 'decoder': list(dec_recipe),
+                              'steps': mini, 'fresh_instance_answer': fresh['out'], 'fresh_instance_ok': fresh['ok']},
+                             key='C14.history.' + dec_recipe[0])
+            break   # the instance's state is now known to be bad: one concrete history is enough
+    for b in batchers.values():
+        b.flush()
+    out_stats[dec_recipe[0]] = {'steps': len(steps), 'codes': dict(codes), 'answers_differing_from_fresh_instance': differ,
+                                'failures': failures}
+
+
+def histories(ctx, stats):
+    hs = {}
+    run_history(ctx, ('NaiveDecoder',), naive_history_steps(ctx), hs)
+    for fam, dec in (('planar', 'PlanarMWPMDecoder'), ('toric', 'ToricMWPMDecoder')):
+        run_history(ctx, (dec,), mwpm_history_steps(ctx, fam), hs)
+    stats['histories'] = hs
+
+
 # ------------------------------------------------------------------------------------------ run
 
 def run(ctx):
@@ -489,24 +972,32 @@ def run(ctx):
         code = make_code(recipe)
         n, k, d = code.n_k_d
         sweep(ctx, recipe, ('NaiveDecoder',), component_errors(n, (d - 1) // 2), True, 'naive_lattice_t0', stats)
-    # (b2) MWPM decoders
+    # (b2) MWPM decoders: sizes 2..5 as before; sizes up to 7x7 (both orientations of every non-square size) with the
+    # structured weight-t chains (quick: structured + single-qubit + a few mixed samples only)
     budget = ctx.scale(20000, 120000)
     mixed = ctx.scale(1000, 30000)
     top = 5
     sizes = [(R, C) for R in range(2, top + 1) for C in range(2, top + 1)]
-    extra = [] if ctx.quick() else [(5, 6), (6, 5), (6, 6), (5, 7), (7, 5), (7, 7)]
+    extra = [(5, 6), (6, 5), (5, 7), (7, 5), (6, 7), (7, 6), (7, 7)] + ([] if ctx.quick() else [(6, 6)])
+    huge = [] if ctx.quick() else [(8, 8), (7, 9), (9, 7), (9, 9)]
     for fam, dec in (('planar', 'PlanarMWPMDecoder'), ('toric', 'ToricMWPMDecoder')):
-        for (R, C) in sizes + extra:
+        for (R, C) in sizes + extra + huge:
             recipe = (fam, R, C)
             code = make_code(recipe)
             n, k, d = code.n_k_d
             t = (d - 1) // 2
-            big = (R, C) in extra
-            errs, exh = lattice_errors(ctx, n, t, budget if not big else 15000, mixed if not big else 6000)
+            if (R, C) in sizes:
+                errs, exh = lattice_errors(ctx, recipe, n, t, budget, mixed)
+            elif (R, C) in extra:
+                errs, exh = lattice_errors(ctx, recipe, n, t, 15000, ctx.scale(100, 6000), structured_only=ctx.quick())
+            else:
+                errs, exh = lattice_errors(ctx, recipe, n, t, 15000, 2000, structured_only=True)
             sweep(ctx, recipe, (dec,), errs, exh, fam + '_mwpm', stats)
+    # (c) decoder-object histories
+    histories(ctx, stats)
     ctx.explored = {}
     for part, st in stats.items():
-        if part == 'naive_tie':
+        if part in ('naive_tie', 'histories'):
             continue
         ctx.explored[part] = {
             'evaluations': st['evaluations'],
@@ -516,8 +1007,14 @@ def run(ctx):
             'exhaustive': not st['sampled_codes'],
             'exhaustive_codes': st['exhaustive_codes'], 'sampled_codes': st['sampled_codes'],
             'failures': st['failures'], 'known_failures': st['known_failures'], 'per_code': st['per_code']}
+    ctx.explored['histories'] = {
+        'evaluations': sum(h['steps'] for h in stats['histories'].values()),
+        'rule': 'one decoder instance answers a seeded sequence of (code, error | syndrome) steps over codes of different '
+                'family and size, with equal and with different syndrome lengths; the property is evaluated on every '
+                'answer (naive: also against the Lean model) and each answer is compared with a fresh instance',
+        'exhaustive': False, 'per_decoder': stats['histories']}
     ctx.extra['naive_tie'] = stats['naive_tie']
-    ctx.extra['decodes'] = sum(st['evaluations'] for p, st in stats.items() if p != 'naive_tie')
+    ctx.extra['decodes'] = sum(st['evaluations'] for p, st in stats.items() if p not in ('naive_tie', 'histories'))
     ctx.exhaustive = False
     ctx.assumptions = [
         'networkx max_weight_matching (behind gt.mwpm) is not modelled: the MWPM decoders are explored on the real '
@@ -536,6 +1033,8 @@ def run(ctx):
 
 def recheck(inp):
     """evaluate the property on the current real code for a recorded input; returns a dict when it fails"""
+    if inp.get('kind') == 'history':
+        return history_failure(tuple(inp['decoder']), inp['steps'])
     recipe = tuple(inp['code'])
     recipe = tuple(list(x) if isinstance(x, (list, tuple)) else x for x in recipe)
     code = make_code(recipe)
@@ -572,6 +1071,9 @@ def recheck(inp):
 def search(m):
     meta = m.get('meta') or {}
     kind = meta.get('kind')
+    if kind == 'history':
+        # the shared instance's answer differs from the model: the property clauses on the history up to that step
+        return history_failure(tuple(meta['decoder']), meta['steps'], upto=int(meta['index']))
     if kind == 'naive':
         # the real naive decoder differs from the model: (1) the min-weight clause on this syndrome
         r = recheck({'kind': 'naive', 'code': meta['code'], 'syndrome': meta['syndrome']})
